@@ -259,7 +259,7 @@ _ENC = ['zope.interface.interface:NameAndModuleComparisonMixin._compare',
 HARNESSES = [
     Harness('s_pairs', make_s_pairs, kind='S', impls=('py',),
             tiers=dict(quick=dict(budget_s=75, parts=16, ppt=30, params=dict(maxlen=3)),
-                       thorough=dict(budget_s=1200, parts=16, ppt=60, params=dict(maxlen=4))),
+                       thorough=dict(budget_s=1500, parts=16, ppt=60, params=dict(maxlen=3))),
             encoded=_ENC,
             bounds='symbolic str name/module of both operands, |s|<=3 quick (<=4 thorough), any code points; '
                    'operand kinds InterfaceClass x InterfaceClass and Implements x Implements (mixed pairs: e_pool); all six operators, reflected forms, None, a foreign object, hash',
